@@ -10,7 +10,7 @@ from spec import frames as F
 LEVEL = "exploration"
 RULE = ("DF 0..31 x {56,112} bits x address alphabet (walking one/zero, 000000, FFFFFF, letter-bearing values, seeded) "
         "x payload alphabet (zeros, ones, every single payload bit, 0x55, 0xAA, seeded) x hex case {UPPER, lower, "
-        "mIxEd}; frames built by the reference AA / AP / PI overlay encoder; thorough adds all 2^24 addresses on a "
+        "mIxEd}; frames built by the reference AA / AP / PI overlay encoder; the live table (Decode) fed ident / position / Comm-B of one transponder in all 27 letter-case combinations must hold one record with the Comm-B merged; thorough adds all 2^24 addresses on a "
         "DF20 and a DF5 carrier; distinct = distinct (DF, length, address) triples")
 ASSUMPTIONS = ["frames whose length does not match their format (e.g. 112-bit DF4) are only required to give None for "
                "formats without an address; for AP formats both lengths are built with the reference overlay"]
@@ -144,13 +144,58 @@ def w_all24(arg):
     return acc.res()
 
 
+def judge_table(addr, c1, c2, c3):
+    """ADS-B ident in case c1, ADS-B position in case c2, Comm-B in case c3, same transponder: one key, Comm-B merged."""
+    from pyModeS.streamer.decode import Decode
+    a = F.with_case(F.es(F.me(4, [(6, 3, 1)]) | 0x04D2C31CB1C3, addr, 5, 17), c1)
+    b = F.with_case(F.es(F.me(11, rest=0x58C382D690C8AC), addr, 5, 18), c2)
+    c = F.with_case(F.long_ap(20, 0x0001838, 0x81951536E024D4, addr), c3)
+    d = Decode()
+    try:
+        d.process_raw([10.0], [a], [], [], tnow=10.0)
+        d.process_raw([11.0], [b], [], [], tnow=11.0)
+        d.process_raw([], [], [12.0], [c], tnow=12.0)
+    except Exception as e:  # noqa: BLE001
+        return "table:raises:%s" % type(e).__name__
+    keys = sorted(d.acs)
+    if len(keys) != 1:
+        return "table:one_transponder_several_records"
+    if keys[0].upper() != "%06X" % addr:
+        return "table:wrong_key"
+    if d.acs[keys[0]].get("t") != 12.0:
+        return "table:commb_of_same_transponder_not_merged"
+    ref = Decode()
+    ref.process_raw([10.0], [a.upper()], [], [], tnow=10.0)
+    if sorted(ref.acs) != keys:
+        return "table:key_depends_on_letter_case"
+    return None
+
+
+def w_table(arg):
+    addrs = arg
+    acc = Acc()
+    for addr in addrs:
+        for c1 in "Ulm":
+            for c2 in "Ulm":
+                for c3 in "Ulm":
+                    acc.n += 1
+                    s = judge_table(addr, c1, c2, c3)
+                    if s:
+                        acc.bad(s, {"kind": "table", "p": [addr, c1, c2, c3]})
+        acc.out.add(("table", addr))
+    return acc.res()
+
+
 def w_any(t):
+    if t[0] == "t":
+        return w_table(t[1])
     return {"a": w_addr, "n": w_none, "x": w_all24}[t[0]](t[1])
 
 
 def run(ctx):
     addrs = addresses(ctx.seed)
     tasks = [("a", (c, ctx.seed, True)) for i, c in enumerate(chunks(addrs, 3))] + [("n", ctx.seed)]
+    tasks += [("t", c) for c in chunks([a for a in addrs if any(ch in "ABCDEF" for ch in "%06X" % a)][:24] + [0x123456], 3)]
     if ctx.thorough:
         step = 1 << 15
         tasks += [("x", (lo, lo + step)) for lo in range(0, 1 << 24, step)]
@@ -161,5 +206,8 @@ def run(ctx):
 
 
 def replay(case):
+    if case["kind"] == "table":
+        s = judge_table(*case["p"])
+        return [(s, case)] if s else []
     s = judge(case["kind"], tuple(case["p"]))
     return [(s, case)] if s else []
